@@ -64,6 +64,7 @@ type reporter struct {
 	a       *agg
 	key     nodeKey
 	replay  func() any
+	ctx     func() string // the concrete sequence, prefixed to every finding
 	seen    []string
 	verbose bool
 }
@@ -89,7 +90,7 @@ func (r *reporter) add(sig, format string, args ...any) {
 	b.count++
 	if b.count == 1 || r.key.less(b.key) {
 		b.key = nodeKey{run: r.key.run, seq: append([]int(nil), r.key.seq...)}
-		b.what = fmt.Sprintf(format, args...)
+		b.what = r.ctx() + ": " + fmt.Sprintf(format, args...)
 		b.replay = r.replay()
 	}
 }
@@ -149,8 +150,13 @@ func snapshotOf(o message.Options) []ent {
 	return s
 }
 
-func isNotFound(err error) bool { return errors.Is(err, message.ErrOptionNotFound) }
-func isTooSmall(err error) bool { return errors.Is(err, message.ErrTooSmall) }
+func isNotFound(err error) bool {
+	return err == message.ErrOptionNotFound || errors.Is(err, message.ErrOptionNotFound)
+}
+
+func isTooSmall(err error) bool {
+	return err == message.ErrTooSmall || errors.Is(err, message.ErrTooSmall)
+}
 
 // ---- panic-safe wrappers around the query methods (one recover per call, so a crash in one
 // query does not hide the answers of the others)
@@ -161,17 +167,113 @@ func safe(f func()) (p any) {
 	return nil
 }
 
+// typed panic-safe wrappers (no closures: nothing escapes to the heap on the hot path)
+
+func sFind(o message.Options, id message.OptionID) (f, l int, err error, p any) {
+	defer func() { p = recover() }()
+	f, l, err = o.Find(id)
+	return
+}
+
+func sHas(o message.Options, id message.OptionID) (has bool, p any) {
+	defer func() { p = recover() }()
+	has = o.HasOption(id)
+	return
+}
+
+func sGetUint32(o message.Options, id message.OptionID) (u uint32, err error, p any) {
+	defer func() { p = recover() }()
+	u, err = o.GetUint32(id)
+	return
+}
+
+func sGetString(o message.Options, id message.OptionID) (s string, err error, p any) {
+	defer func() { p = recover() }()
+	s, err = o.GetString(id)
+	return
+}
+
+func sGetBytes(o message.Options, id message.OptionID) (b []byte, err error, p any) {
+	defer func() { p = recover() }()
+	b, err = o.GetBytes(id)
+	return
+}
+
+func sGetUint32s(o message.Options, id message.OptionID, r []uint32) (n int, err error, p any) {
+	defer func() { p = recover() }()
+	n, err = o.GetUint32s(id, r)
+	return
+}
+
+func sGetStrings(o message.Options, id message.OptionID, r []string) (n int, err error, p any) {
+	defer func() { p = recover() }()
+	n, err = o.GetStrings(id, r)
+	return
+}
+
+func sGetBytess(o message.Options, id message.OptionID, r [][]byte) (n int, err error, p any) {
+	defer func() { p = recover() }()
+	n, err = o.GetBytess(id, r)
+	return
+}
+
+func sPath(o message.Options, loc bool) (s string, err error, p any) {
+	defer func() { p = recover() }()
+	if loc {
+		s, err = o.LocationPath()
+	} else {
+		s, err = o.Path()
+	}
+	return
+}
+
+func sQueries(o message.Options) (q []string, err error, p any) {
+	defer func() { p = recover() }()
+	q, err = o.Queries()
+	return
+}
+
+// which: 0 ContentFormat, 1 Accept, 2 Observe
+func sTyped(o message.Options, which int) (u uint32, err error, p any) {
+	defer func() { p = recover() }()
+	switch which {
+	case 0:
+		var v message.MediaType
+		v, err = o.ContentFormat()
+		u = uint32(v)
+	case 1:
+		var v message.MediaType
+		v, err = o.Accept()
+		u = uint32(v)
+	default:
+		u, err = o.Observe()
+	}
+	return
+}
+
 type scratch struct {
-	u  []uint32
-	s  []string
-	b  [][]byte
-	sb []byte
+	vals [][]byte
+	u    []uint32
+	s    []string
+	b    [][]byte
+	sb   []byte
 }
 
 const sentinelU = 0xDEADBEEF
 const sentinelS = "\x00sentinel"
 
 var sentinelB = []byte("\x00sentinelB")
+
+// valuesOf is model.values without allocation; the result is valid until the next call.
+func (sc *scratch) valuesOf(m *model, id message.OptionID) [][]byte {
+	sc.vals = sc.vals[:0]
+	for _, e := range m.e {
+		if e.id == id {
+			sc.vals = append(sc.vals, e.val)
+		}
+	}
+	return sc.vals
+}
 
 func newScratch() *scratch {
 	return &scratch{u: make([]uint32, 64), s: make([]string, 64), b: make([][]byte, 64)}
@@ -181,12 +283,11 @@ func newScratch() *scratch {
 func queryOptions(got message.Options, m *model, sc *scratch, rep *reporter) {
 	for _, id := range queryIDs {
 		first, cnt := m.find(id)
-		vals := m.values(id)
+		vals := sc.valuesOf(m, id)
 
 		// Find
-		var f, l int
-		var err error
-		if p := safe(func() { f, l, err = got.Find(id) }); p != nil {
+		f, l, err, p := sFind(got, id)
+		if p != nil {
 			rep.add("Find/panic", "Find(%d) panicked: %v", id, p)
 		} else if cnt == 0 {
 			if !isNotFound(err) {
@@ -197,16 +298,16 @@ func queryOptions(got message.Options, m *model, sc *scratch, rep *reporter) {
 		}
 
 		// HasOption
-		var has bool
-		if p := safe(func() { has = got.HasOption(id) }); p != nil {
+		has, p := sHas(got, id)
+		if p != nil {
 			rep.add("HasOption/panic", "HasOption(%d) panicked: %v", id, p)
 		} else if has != (cnt > 0) {
 			rep.add("HasOption/wrong", "HasOption(%d) = %v with %d such options in the list", id, has, cnt)
 		}
 
 		// GetUint32 (first option; compared when the value is a legal uint of <= 4 bytes)
-		var u uint32
-		if p := safe(func() { u, err = got.GetUint32(id) }); p != nil {
+		u, err, p := sGetUint32(got, id)
+		if p != nil {
 			rep.add("GetUint32/panic", "GetUint32(%d) panicked: %v", id, p)
 		} else if cnt == 0 {
 			if !isNotFound(err) {
@@ -217,8 +318,8 @@ func queryOptions(got message.Options, m *model, sc *scratch, rep *reporter) {
 		}
 
 		// GetString
-		var s string
-		if p := safe(func() { s, err = got.GetString(id) }); p != nil {
+		s, err, p := sGetString(got, id)
+		if p != nil {
 			rep.add("GetString/panic", "GetString(%d) panicked: %v", id, p)
 		} else if cnt == 0 {
 			if !isNotFound(err) {
@@ -229,8 +330,8 @@ func queryOptions(got message.Options, m *model, sc *scratch, rep *reporter) {
 		}
 
 		// GetBytes
-		var b []byte
-		if p := safe(func() { b, err = got.GetBytes(id) }); p != nil {
+		b, err, p := sGetBytes(got, id)
+		if p != nil {
 			rep.add("GetBytes/panic", "GetBytes(%d) panicked: %v", id, p)
 		} else if cnt == 0 {
 			if !isNotFound(err) {
@@ -252,33 +353,31 @@ func queryOptions(got message.Options, m *model, sc *scratch, rep *reporter) {
 	}
 
 	// Path / LocationPath
-	for _, pq := range []struct {
-		name string
-		id   message.OptionID
-		f    func() (string, error)
-	}{{"Path", message.URIPath, got.Path}, {"LocationPath", message.LocationPath, got.LocationPath}} {
-		want, present := m.joined(pq.id)
-		var s string
-		var err error
-		if p := safe(func() { s, err = pq.f() }); p != nil {
-			rep.add(pq.name+"/panic", "%s() panicked: %v", pq.name, p)
+	for k, name := range [2]string{"Path", "LocationPath"} {
+		pid := message.URIPath
+		if k == 1 {
+			pid = message.LocationPath
+		}
+		want, present := m.joined(pid)
+		s, err, p := sPath(got, k == 1)
+		if p != nil {
+			rep.add(name+"/panic", "%s() panicked: %v", name, p)
 		} else if !present {
 			// reading (options_test.go/pool message_test.go "Empty" cases expect an error from
 			// Path() when there is no Uri-Path option): absent -> ErrOptionNotFound
 			if !isNotFound(err) {
-				rep.add(pq.name+"/absent-not-reported", "%s() = (%q,%v) without any such option", pq.name, s, err)
+				rep.add(name+"/absent-not-reported", "%s() = (%q,%v) without any such option", name, s, err)
 			}
 		} else if err != nil || s != want {
-			rep.add(pq.name+"/wrong", "%s() = (%s,%v), want %s", pq.name, fmtVal([]byte(s)), err, fmtVal([]byte(want)))
+			rep.add(name+"/wrong", "%s() = (%s,%v), want %s", name, fmtVal([]byte(s)), err, fmtVal([]byte(want)))
 		}
 	}
 
 	// Queries
 	{
-		vals := m.values(message.URIQuery)
-		var q []string
-		var err error
-		if p := safe(func() { q, err = got.Queries() }); p != nil {
+		vals := sc.valuesOf(m, message.URIQuery)
+		q, err, p := sQueries(got)
+		if p != nil {
 			rep.add("Queries/panic", "Queries() panicked: %v", p)
 		} else if len(vals) == 0 {
 			if !isNotFound(err) {
@@ -296,27 +395,24 @@ func queryOptions(got message.Options, m *model, sc *scratch, rep *reporter) {
 	}
 
 	// typed uint getters
-	for _, tq := range []struct {
-		name string
-		id   message.OptionID
-		max  int // longest legal encoding of the target type
-		f    func() (uint32, error)
-	}{
-		{"ContentFormat", message.ContentFormat, 2, func() (uint32, error) { v, e := got.ContentFormat(); return uint32(v), e }},
-		{"Accept", message.Accept, 2, func() (uint32, error) { v, e := got.Accept(); return uint32(v), e }},
-		{"Observe", message.Observe, 4, got.Observe},
-	} {
-		vals := m.values(tq.id)
-		var u uint32
-		var err error
-		if p := safe(func() { u, err = tq.f() }); p != nil {
-			rep.add(tq.name+"/panic", "%s() panicked: %v", tq.name, p)
+	for k, name := range [3]string{"ContentFormat", "Accept", "Observe"} {
+		tid, max := message.ContentFormat, 2 // max: longest legal encoding of the target type
+		switch k {
+		case 1:
+			tid = message.Accept
+		case 2:
+			tid, max = message.Observe, 4
+		}
+		vals := sc.valuesOf(m, tid)
+		u, err, p := sTyped(got, k)
+		if p != nil {
+			rep.add(name+"/panic", "%s() panicked: %v", name, p)
 		} else if len(vals) == 0 {
 			if !isNotFound(err) {
-				rep.add(tq.name+"/absent-not-reported", "%s() = (%d,%v) although absent", tq.name, u, err)
+				rep.add(name+"/absent-not-reported", "%s() = (%d,%v) although absent", name, u, err)
 			}
-		} else if len(vals[0]) <= tq.max && (err != nil || u != uintValue(vals[0])) {
-			rep.add(tq.name+"/wrong", "%s() = (%d,%v), first value is %s", tq.name, u, err, fmtVal(vals[0]))
+		} else if len(vals[0]) <= max && (err != nil || u != uintValue(vals[0])) {
+			rep.add(name+"/wrong", "%s() = (%d,%v), first value is %s", name, u, err, fmtVal(vals[0]))
 		}
 	}
 }
@@ -342,9 +438,8 @@ func multiUint(got message.Options, id message.OptionID, vals [][]byte, rl int, 
 	for i := range r {
 		r[i] = sentinelU
 	}
-	var n int
-	var err error
-	if p := safe(func() { n, err = got.GetUint32s(id, r) }); p != nil {
+	n, err, p := sGetUint32s(got, id, r)
+	if p != nil {
 		rep.add("GetUint32s/panic", "GetUint32s(%d, len %d) with %d such options panicked: %v", id, rl, cnt, p)
 		return
 	}
@@ -387,9 +482,8 @@ func multiString(got message.Options, id message.OptionID, vals [][]byte, rl int
 	for i := range r {
 		r[i] = sentinelS
 	}
-	var n int
-	var err error
-	if p := safe(func() { n, err = got.GetStrings(id, r) }); p != nil {
+	n, err, p := sGetStrings(got, id, r)
+	if p != nil {
 		rep.add("GetStrings/panic", "GetStrings(%d, len %d) with %d such options panicked: %v", id, rl, cnt, p)
 		return
 	}
@@ -428,9 +522,8 @@ func multiBytes(got message.Options, id message.OptionID, vals [][]byte, rl int,
 	for i := range r {
 		r[i] = sentinelB
 	}
-	var n int
-	var err error
-	if p := safe(func() { n, err = got.GetBytess(id, r) }); p != nil {
+	n, err, p := sGetBytess(got, id, r)
+	if p != nil {
 		rep.add("GetBytess/panic", "GetBytess(%d, len %d) with %d such options panicked: %v", id, rl, cnt, p)
 		return
 	}
